@@ -17,6 +17,9 @@ RULE = (
     "write a positional encoding of their arguments and callers write the result, so order, count and value are compared with the "
     "reference executor.  Non-trivial case = >= 2 distinct effect traces explored."
 )
+RULE += (
+    ' Also CALLARG (calls as call arguments: argument slots / pushes of the outer call around the inner call).'
+)
 ASSUME = [
     "reference IC10 machine M and reference executor R as in C01",
     "function entry points and arities for the stack-pointer law come from the harness-side wrapper of generate_code.assign_registers; "
@@ -35,7 +38,7 @@ def vectors(tier):
 def build_cases(tier):
     cases = []
     vs = vectors(tier)
-    for c in F.func(tier) + F.func2(tier):
+    for c in F.func(tier) + F.func2(tier) + F.callarg(tier):
         cases += common.split_call_case(c, vs)
     for c in F.func3(tier):
         cases.append(dict(c, variants=vs))
